@@ -1,4 +1,5 @@
 import RxProofs.Lemmas.VtsPeriodic4
+import RxProofs.Lemmas.VtsTimer
 /-!
 # C35 — periodic scheduling threads state, keeps the period and stops
 
@@ -182,6 +183,84 @@ theorem closed_form_any_sleep (handler : Err → Bool) (f : Nat → σ → Tick 
     refine ⟨this.1, ?_⟩
     rw [this.2]; split <;> omega
 
+/-! ## `timer(duetime, period)`, `duetime ≠ period` — its own re-basing loop (`observable/timer.py`)
+
+Model: `RxModel/VtsTimer.lean`.  The run may contain any number of other actions that take virtual time
+(`block`: they call `scheduler.sleep`), scheduled at any times, and the observer's `on_next(k)` may itself sleep
+`cost k` — for an ARBITRARY `cost` — so the statements hold for every sequence of lateness values. -/
+
+/-- **timer_tick_rule.**  One tick, as written: when the loop of `advance_to(T)` gets the timer's tick `k` (due `dt`),
+it delivers `k` at `now = max clock dt`, then the clock moves by what the observer slept, and the next tick `k+1`
+is scheduled for `dt + p` — the grid — unless that is not after `now` (the tick ran a period or more late), in
+which case for `now + p`. -/
+theorem timer_tick_rule (p : Int) (cost : Nat → Nat) (T : Int) (s : Tmr.St) (x : Tmr.Item) (q' : PQ Tmr.Item) (k : Nat)
+    (hp : 1 ≤ p) (hen : s.enabled = true) (hd : s.queue.dequeue? Tmr.Item.due = some (x, q')) (hdue : x.due ≤ T)
+    (hk : x.kind = .tick k) :
+    Tmr.iter p cost T s = .next (Tmr.enqueue
+      { s with clock := (if x.due > s.clock then x.due else s.clock) + cost k, queue := q',
+               log := s.log ++ [{ k, at_ := if x.due > s.clock then x.due else s.clock, due := x.due }] }
+      { due := if x.due + p ≤ (if x.due > s.clock then x.due else s.clock)
+               then (if x.due > s.clock then x.due else s.clock) + p else x.due + p,
+        kind := .tick (k + 1) }) := by
+  have h1 : ¬ x.due > T := by omega
+  have h2 : ¬ p ≤ 0 := by omega
+  simp only [Tmr.iter, hen, hd, h1, hk, h2, Tmr.nextDue]
+  simp
+
+/-- **timer_ticks (the reference rule, for every sequence of lateness values).**  Subscribe `timer(duetime, period)`
+(first due time `d0`, relative or absolute, possibly already in the past) on a scheduler on which any blocking
+actions `blocks` were scheduled before, and `advance_to(T)`.  Then the emissions are `0, 1, 2, …` in order
+(`Tmr.ChainOK`): emission 0 had due time `d0`; every emission is delivered at or after its due time; for consecutive
+emissions `a`, `b`: `b` was due at `a.due + p` if `a` was delivered less than a period late, and at
+`a.at_ + p` (the grid is re-based at `a`'s `now`) if `a` was delivered a period or more late.  In particular,
+as long as no emission was a period or more late, emission `k` was due at exactly `d0 + k·p`. -/
+theorem timer_ticks (p : Int) (cost : Nat → Nat) (T c0 d0 : Int) (blocks : List (Int × Nat)) :
+    let s0 := Tmr.subscribe (blocks.foldl (fun s b => Tmr.scheduleBlock s b.1 b.2) { clock := c0 }) d0
+    let log := (Tmr.advanceTo p cost T s0).1.log
+    Tmr.ChainOK p 0 d0 log ∧
+    (∀ (i : Nat) (a b : Tmr.Ran), log[i]? = some a → log[i + 1]? = some b →
+      b.k = a.k + 1 ∧ a.due ≤ a.at_ ∧
+      (a.at_ < a.due + p → b.due = a.due + p) ∧ (a.due + p ≤ a.at_ → b.due = a.at_ + p)) ∧
+    ((∀ e ∈ log, e.at_ < e.due + p) → ∀ e ∈ log, e.due = d0 + (e.k : Int) * p) := by
+  intro s0 log
+  have hb := Tmr.log_blocks blocks { clock := c0 }
+  have hinit : Tmr.GInv p d0 s0 := by
+    refine ⟨?_, ?_⟩
+    · show Tmr.ChainOK p 0 d0 (blocks.foldl (fun s b => Tmr.scheduleBlock s b.1 b.2) { clock := c0 }).log
+      rw [hb.1]; trivial
+    · show Tmr.ticks (Tmr.subscribe _ d0).queue.items =
+        [Tmr.chainEnd p 0 d0 (blocks.foldl (fun s b => Tmr.scheduleBlock s b.1 b.2) ({ clock := c0 } : Tmr.St)).log]
+      rw [hb.1]
+      simp only [Tmr.subscribe, Tmr.enqueue, PQ.enqueue, Tmr.ticks_append, Tmr.ticks_blocks]
+      simp [Tmr.ticks, Tmr.tickOf, Tmr.chainEnd]
+  have hchain : Tmr.ChainOK p 0 d0 log := by
+    show Tmr.ChainOK p 0 d0 (Tmr.advanceTo p cost T s0).1.log
+    simp only [Tmr.advanceTo]
+    split
+    · exact hinit.1
+    · split
+      · exact hinit.1
+      · have := Tmr.ginv_loop p cost T d0 (Tmr.weight T s0.queue.items + 1) { s0 with enabled := true } hinit
+        split
+        · next s' heq => rw [heq] at this; exact this.1
+        · exact this.1
+  refine ⟨hchain, ?_, ?_⟩
+  · intro i a b ha hb'
+    obtain ⟨h1, h2, h3⟩ := Tmr.chain_step p log 0 d0 hchain i a b ha hb'
+    refine ⟨h1, h3, ?_, ?_⟩
+    · intro hlt; rw [h2]; simp only [Tmr.nextDue]; split <;> omega
+    · intro hge; rw [h2]; simp only [Tmr.nextDue]; split <;> omega
+  · intro hall e he
+    have := (Tmr.chain_on_grid p log 0 d0 hchain hall).1 e he
+    simpa using this
+
+/-- the timer loop terminates: the fuel `weight + 1` that `advanceTo` hands to the loop is never exhausted -/
+theorem timer_terminates (p : Int) (cost : Nat → Nat) (T : Int) (s : Tmr.St) :
+    (∀ s', Tmr.iter p cost T s = .next s' → Tmr.weight T s'.queue.items < Tmr.weight T s.queue.items) ∧
+    (∀ m, Tmr.weight T s.queue.items < m →
+      Tmr.loopFuel p cost T (Tmr.weight T s.queue.items + 1) s = Tmr.loopFuel p cost T m s) :=
+  ⟨fun _ h => Tmr.iter_next_weight h, fun m hm => Tmr.loopFuel_enough p cost T _ m s (by omega) hm⟩
+
 /-- **stops_on_dispose.**  After `dispose()` of the handle returned by `schedule_periodic` — called from
 outside, from another scheduled action at some time, or by the periodic action itself — the action is never
 invoked again, whatever calls follow (`advance_to` any number of times, other periodic tasks, their
@@ -253,5 +332,12 @@ private def fSlow : Nat → Int → Tick Int := fun _ n => { next := .ok (n + 1)
 /-- period 5, the call with state 1 (at 10) sleeps 12 > period: the next call is overdue and runs at 22, then 27 -/
 example : (advanceTo (fun _ => false) fSlow 30 (schedulePeriodic { clock := 0 } 1 5 (0 : Int) false)).1.log =
     [⟨1, 5, 0⟩, ⟨1, 10, 1⟩, ⟨1, 22, 2⟩, ⟨1, 27, 3⟩] := by decide
+
+/-- timer(duetime → first due 3, period 10) from clock 0; a blocker at 13 sleeps 4 (tick 1 is late by 4 < period:
+the grid is kept), the observer sleeps 25 inside on_next(2) (tick 3, due 33, runs at 48 ≥ 33 + 10: re-based, tick 4
+due 58) -/
+example : ((Tmr.advanceTo 10 (fun k => if k = 2 then 25 else 0) 60
+      (Tmr.subscribe (Tmr.scheduleBlock { clock := 0 } 13 4) 3)).1.log.map fun r => (r.k, r.at_, r.due)) =
+    [(0, 3, 3), (1, 17, 13), (2, 23, 23), (3, 48, 33), (4, 58, 58)] := by decide
 
 end C35
